@@ -1173,9 +1173,15 @@ decreasing_by
   · have := tryUrlSheet_adv ind s i _ hm; omega
   · have := parseIdentifier_adv false false s i _ _ hm; omega
 
+/-- `buffer.contents.is_empty()` after the loop consumed `[i, j)`: nothing consumed, or — indented
+    syntax only — nothing but spaces/tabs up to the line break (a space is only written when the next
+    token is not whitespace, stylesheet.rs:2121-2135, and the newline is not consumed). -/
+def idvBufferEmpty (ind : Bool) (s : Array Char) (i j : Nat) : Bool :=
+  j == i || (ind && (s.extract i j).all (fun c => c == ' ' || c == '\t') && peekIs s j '\n')
+
 def interpolatedDeclarationValue (ind allowSemi allowEmpty allowColon : Bool) (s : Array Char) (i : Nat) : Res :=
   match ideclValue ind allowSemi allowColon s i [] with
-  | .ok j => if !allowEmpty && j == i then .err .expectedToken (.cur j) else .ok j
+  | .ok j => if !allowEmpty && idvBufferEmpty ind s i j then .err .expectedToken (.cur j) else .ok j
   | r => r
 
 /-- `almost_any_value` (stylesheet.rs:2740). -/
@@ -1373,6 +1379,10 @@ def scanOp (name : String) (y : Syn) (pre sub suf : List Char) : String :=
   let start := (lex pre).length
   let nsub := (lex (pre ++ sub)).length - start
   if name == "ws" then resStr ts start nsub (whitespace y s start)
+  else if name == "ws+string" then
+    (match whitespace y s start with
+     | .ok j => resStr ts start nsub (parseString s j)
+     | r => resStr ts start nsub r)
   else if name == "wsnc" then resStr ts start nsub (.ok (wsNoComments y.ind s start))
   else if name == "loud" then
     (if peekIs s start '/' && peekIs s (start + 1) '*' then resStr ts start nsub (loudFor y.ind s (start + 2)) else "unsupported")
